@@ -42,7 +42,7 @@ def c05(tier, seed):
 
 
 def c06(tier, seed):
-    return combine(fam_list(tier, ['order_q', 'order_split_q', 'two_q', 'two_fills_q', 'events_order_q', 'lines_q', 'lines4_q', 'lines_fills_q', 'lines_files_q'], ['order_t', 'two_t', 'lines_t', 'lines5_t', 'lines_files_t']) + [cli_family(tier), fx_family(tier)], ['variant_comparisons', 'partitions', 'fx_line_orders'],
+    return combine(fam_list(tier, ['order_q', 'order_split_q', 'two_q', 'two_fills_q', 'events_order_q', 'lines_q', 'lines4_q', 'lines_fills_q', 'lines_files_q', 'lines_design_q'], ['order_t', 'two_t', 'lines_t', 'lines5_t', 'lines_files_t']) + [cli_family(tier), fx_family(tier)], ['variant_comparisons', 'partitions', 'fx_line_orders'],
                    'every cell ledger of the family rendered in canonical order and as reversed / sells-first / '
                    'actions-first / two seeded shuffles / adjacent and separated half fills / lower-case tickers; '
                    'non-trivial = implementation-vs-implementation comparisons of a variant with the canonical rendering',
